@@ -47,7 +47,7 @@ def run(ctx):
     for a in ACCESSORS:
         m = ui.methods.get(a)
         if m is not None:
-            entries[m.qual] = True
+            entries[m.qual] = False      # a parsed result's attributes "can all be read": an accessor may not raise at all
     for q, allow_value_error in sorted(entries.items()):
         fi = repo.func(q)
         items = esc.escapes(fi)
@@ -57,6 +57,11 @@ def run(ctx):
                 ck.ok('C11-D1', q, 'assert implied by a dominating check: ' + it.origin)
                 continue
             is_value = esc.is_sub(t, 'ValueError')
+            if not allow_value_error:
+                why = _validated_in_parse(ctx, esc, ui, it)
+                if why:
+                    ck.ok('C11-D1', q, '%s from %s - infeasible: %s' % (t, it.origin, why))
+                    continue
             if is_value and allow_value_error:
                 ck.ok('C11-D1', q, '%s from %s' % (t, it.origin))
             else:
@@ -71,6 +76,7 @@ def run(ctx):
     _none_field_rule(ctx, ui)
 
     # ------------------------------------------------------------------ D2
+    _selfcheck_decreasing()
     funcs = [f for f in repo.funcs.values() if f.module is mod]
     # direct self-calls on every path
     graph = {}
@@ -113,6 +119,12 @@ def run(ctx):
         p = cfg.find_path(cfg.entry, lambda n: n is cfg.exit, edge_ok=lambda a, b, k: not k.startswith('x:'),
                           stop=in_cycle)
         # find_path treats a goal that is also a stop node fine; a path ending at EXIT that avoids the cycle is a base case
+        # every call back into the cycle must work on a strictly smaller input, otherwise nothing bounds the depth
+        und = _undecreasing_calls(f.node, {g.split(':')[-1].split('.')[-1] for g in scc})
+        ck.expect(not und, 'C11-D2', f.qual, 'every recursive call passes a strict part of a parameter',
+                  'recursive call %s passes no strictly smaller argument (slice or split part of a parameter): nothing bounds the '
+                  'recursion depth, so some input never terminates (RecursionError)' % (norm_text(und[0])[:80] if und else ''),
+                  f.loc(und[0]) if und else f.loc())
         ck.expect(p is not None, 'C11-D2', f.qual, 'recursion has a base case',
                   'every path to a return of %s passes a call back into %s: unbounded recursion (RecursionError) for every input'
                   % (f.qual, sorted(scc)), f.loc())
@@ -276,6 +288,124 @@ def _within(root, node):
     return root is node or any(n is node for n in ast.walk(root))
 
 
+def _undecreasing_calls(fn, names):
+    """Calls of one of `names` inside fn none of whose arguments is a strict part of a parameter of fn: a slice with a constant
+    lower bound >= 1 or a constant negative upper bound, or a local unpacked from / indexed out of partition()/split() of a parameter."""
+    a = fn.args
+    params = {x.arg for x in a.posonlyargs + a.args + a.kwonlyargs}
+    defs = U.local_defs(fn)
+
+    def strict_part(e, depth=0):
+        if depth > 3:
+            return False
+        if isinstance(e, ast.Subscript) and isinstance(e.value, ast.Name) and e.value.id in params and isinstance(e.slice, ast.Slice):
+            lo, hi = e.slice.lower, e.slice.upper
+            if isinstance(lo, ast.Constant) and isinstance(lo.value, int) and lo.value >= 1:
+                return True
+            if isinstance(hi, ast.UnaryOp) and isinstance(hi.op, ast.USub) and isinstance(hi.operand, ast.Constant) and hi.operand.value >= 1:
+                return True
+            return False
+        if isinstance(e, ast.Subscript) and isinstance(e.value, ast.Call) and U.attr_name(e.value) in ('partition', 'rpartition', 'split', 'rsplit') \
+                and isinstance(e.value.func.value, ast.Name) and e.value.func.value.id in params and e.value.args:
+            return True
+        if isinstance(e, ast.Name) and e.id not in params:
+            ds = defs.get(e.id, [])
+            return bool(ds) and all(
+                (k.startswith('tuple:') and isinstance(v, ast.Call) and U.attr_name(v) in ('partition', 'rpartition', 'split', 'rsplit')
+                 and isinstance(v.func.value, ast.Name) and v.func.value.id in params and v.args)
+                or (k == 'assign' and v is not None and strict_part(v, depth + 1)) for v, k, s_ in ds)
+        return False
+    out = []
+    for c in U.calls(fn):
+        nm = c.func.id if isinstance(c.func, ast.Name) else (c.func.attr if isinstance(c.func, ast.Attribute) else None)
+        if nm in names and not (isinstance(c.func, ast.Attribute) and not isinstance(c.func.value, ast.Name)):
+            if isinstance(c.func, ast.Attribute) and c.func.value.id not in ('self', 'cls'):
+                continue      # urllib.parse.urljoin(...) is not this module's urljoin
+            if not any(strict_part(x) for x in list(c.args) + [k.value for k in c.keywords]):
+                out.append(c)
+    return out
+
+
+def _selfcheck_decreasing():
+    """Positive and negative example for the zero-instance rule (must hold on every run)."""
+    bad = ast.parse("def f(a, b):\n    if b.startswith('//'):\n        return f(a, 'x:' + b)\n    return a\n").body[0]
+    good = ast.parse("def g(s):\n    if not s:\n        return 0\n    head, sep, rest = s.partition('/')\n    return g(s[1:]) + g(rest)\n").body[0]
+    if len(_undecreasing_calls(bad, {'f'})) != 1 or _undecreasing_calls(good, {'g'}):
+        raise AnalysisError('C11-D2 self-check failed: the decreasing-argument detector no longer separates its two examples')
+
+
+_VIP = {}
+
+
+def _validated_in_parse(ctx, esc, ui, it):
+    """An accessor re-applies a normaliser to a stored field; the exception cannot occur there when URLInfo.parse - the only
+    writer of that field - has applied the same normaliser with the same (default) arguments to the stored value before
+    returning: whatever it raises, it raises inside parse."""
+    repo, res = ctx.repo, ctx.res
+    key = it
+    if key in _VIP:
+        return _VIP[key]
+    _VIP[key] = None
+    parse = ui.methods.get('parse')
+    if parse is None:
+        return None
+    # the object under construction in parse
+    obj = None
+    for n in walk_no_nested(parse.node):
+        if isinstance(n, ast.Assign) and isinstance(n.value, ast.Call) and norm_text(n.value.func) in ('URLInfo', 'cls') and isinstance(n.targets[0], ast.Name):
+            obj = n.targets[0].id
+    if obj is None:
+        return None
+    validated = {}      # (callee name, field) -> True
+    pm = U.parents(parse.node)
+    for c in U.calls(parse.node):
+        if isinstance(c.func, ast.Name) and len(c.args) == 1 and not c.keywords and isinstance(c.args[0], ast.Attribute) \
+                and isinstance(c.args[0].value, ast.Name) and c.args[0].value.id == obj:
+            if any(isinstance(a, (ast.Try, ast.If, ast.For, ast.While)) for a in U.ancestors(c, pm)):
+                continue
+            fld = c.args[0].attr
+            stores = [n for n in walk_no_nested(parse.node) if isinstance(n, ast.Assign) and any(
+                isinstance(t, ast.Attribute) and isinstance(t.value, ast.Name) and t.value.id == obj and t.attr == fld for t in n.targets)]
+            if stores and all(st.lineno < c.lineno for st in stores):
+                validated[(c.func.id, fld)] = True
+    if not validated:
+        return None
+    # the field is written by parse only
+    for (fn_, fld) in validated:
+        for m in ui.methods.values():
+            if m is parse:
+                continue
+            for n in walk_no_nested(m.node):
+                if isinstance(n, (ast.Assign, ast.AugAssign)):
+                    tg = n.targets if isinstance(n, ast.Assign) else [n.target]
+                    if any(U.is_self_attr(t, fld) for t in tg) and not (
+                            m.name == '__init__' and isinstance(n, ast.Assign) and isinstance(n.value, ast.Constant) and n.value.value is None):
+                        return None
+    # every call in the non-parsing methods of URLInfo through which the item can arrive has a validated form
+    sites = 0
+    for m in list(ui.methods.values()):
+        if 'classmethod' in m.decorators or 'staticmethod' in m.decorators:
+            continue
+        for c in U.calls(m.node):
+            for g in res.callee_funcs(m, c, allow_name=False, count=False):
+                if g.cls is ui:
+                    continue
+                got = set()
+                for (qq, _env), items in esc.final.items():
+                    if qq == g.qual:
+                        got |= items
+                if it in got:
+                    sites += 1
+                    okc = isinstance(c.func, ast.Name) and len(c.args) == 1 and not c.keywords and U.is_self_attr(c.args[0]) \
+                        and (c.func.id, c.args[0].attr) in validated
+                    if not okc:
+                        return None
+    if sites:
+        _VIP[key] = 'URLInfo.parse applies the same normaliser to the stored %s before it returns (%d accessor call site(s))' % (
+            '/'.join(sorted({f for _, f in validated})), sites)
+    return _VIP[key]
+
+
 def _assert_implied(repo, mod, it):
     """Frozen, commented implication table (DESIGN C11-D1): the bracket asserts in
     hostname_with_port are implied by parse_hostname's forbidden-character check
@@ -296,7 +426,18 @@ def _assert_implied(repo, mod, it):
             isinstance(n, ast.Name) and n.id == 'FORBIDDEN_HOSTNAME_CHARS' for n in ast.walk(ph.node))
         p6 = repo.func(URL + ':URLInfo.parse_ipv6_hostname')
         compressed = any(isinstance(n, ast.Attribute) and n.attr == 'compressed' for n in ast.walk(p6.node))
-        return has_check and compressed
+        # ipaddress accepts a zone id ("fe80::1%<anything>", Python >= 3.9) and .compressed keeps it verbatim, brackets
+        # included: the literal must be refused when it contains '%' (or the result checked against the forbidden set)
+        zone_refused = False
+        for n in walk_no_nested(p6.node):
+            if isinstance(n, ast.If) and n.body and isinstance(n.body[-1], ast.Raise) and any(
+                    isinstance(c, ast.Compare) and isinstance(c.ops[0], ast.In) and isinstance(c.left, ast.Constant) and c.left.value == '%'
+                    for c in ast.walk(n.test)):
+                zone_refused = True
+            if isinstance(n, ast.If) and n.body and isinstance(n.body[-1], ast.Raise) and any(
+                    isinstance(x, ast.Name) and x.id == 'FORBIDDEN_HOSTNAME_CHARS' for x in ast.walk(n.test)):
+                zone_refused = True
+        return has_check and compressed and zone_refused
     return False
 
 
